@@ -452,8 +452,16 @@ fn serialise_router_advertisement(a: &RtrAdvertisement) -> Vec<u8> {
             NDOptionValue::Pref64((lifetime, prefixlen, prefix)) => {
                 v.serialise(PREF64.0);
                 v.serialise(2_u8);
-                let scaled_lifetime = (lifetime.as_secs() / 8) as u16;
-                let plc = ((prefixlen - 32) / 8) as u16;
+                /* 13 bits of lifetime in units of 8 seconds, 3 bits of prefix length code (RFC8781) */
+                let scaled_lifetime = std::cmp::min(lifetime.as_secs() / 8, 0x1fff) as u16;
+                let plc: u16 = match prefixlen {
+                    96 => 0,
+                    64 => 1,
+                    56 => 2,
+                    48 => 3,
+                    40 => 4,
+                    _ => 5, /* 32, the configuration parser only lets valid lengths through */
+                };
                 v.serialise((scaled_lifetime << 3) | plc);
                 for i in 0..12 {
                     v.serialise(prefix.octets()[i])
